@@ -7,6 +7,8 @@
 -/
 import Nice.Proofs.StunSafe
 import Nice.Props.C07
+import Nice.Proofs.StunFinish
+import Nice.Proofs.StunReply
 namespace Nice.Props.C05
 open Nice.Stun Nice.Spec.Stun Nice.Gen
 
@@ -89,6 +91,35 @@ theorem C05_no_fault_append (a : Option Cfg) (buf : Bytes) (type : UInt16) (n : 
 theorem C05_no_fault_agent_validate (H : Hashes) (ag : Agent) (buffer : Bytes) (v : Validater) (u : Nat)
     (hs : buffer.size < 65536) : ∃ r, validate H ag buffer v u = .ok r :=
   validate_no_fault H ag buffer v u hs
+
+/-- `stun_agent_finish_message` returns a length or 0 for every well-formed builder state (any
+    capacity up to 65535, agent, key): no access outside the caller's buffer, `assert (len >= 44)` in
+    stun_sha1 holds.  Hypothesis on the parameter HMAC: it returns 20 bytes. -/
+theorem C05_no_fault_finish_message (H : Hashes) (hH : ∀ k t, (H.hmac k t).size = 20) (ag : Agent) (msg : Msg)
+    (key : Option Bytes) (w : UInt16) (hB : Built (some ag.cfg) msg.buf w) (hcap : msg.buf.size ≤ 65535) :
+    ∃ r, finishMessage H ag msg key = .ok r := finishMessage_no_fault H hH ag msg key w hB hcap
+
+/-- the usage-level builders (binding request, binding keepalive, ICE connectivity check) return a
+    length or 0 for every output buffer of 0..65535 bytes (agent SOFTWARE string valid UTF-8) -/
+theorem C05_no_fault_usage_builders (H : Hashes) (hH : ∀ k t, (H.hmac k t).size = 20) (ag : Agent) (buf id : Bytes)
+    (hsw : SoftwareOk ag) (hcap : buf.size ≤ 65535) :
+    (∃ r, bindCreate H ag buf id = .ok r) ∧ (∃ r, bindKeepalive H ag buf id = .ok r) ∧
+    (∀ username password candUse controlling priority tie candidateId compat,
+      (∀ u, username = some u → u.size < 2 ^ 63) → (∀ c, candidateId = some c → c.size < 2 ^ 62) →
+      ∃ r, iceConncheckCreate H ag buf id username password candUse controlling priority tie candidateId compat = .ok r) :=
+  ⟨bindCreate_no_fault H hH ag buf id hsw hcap, bindKeepalive_no_fault H hH ag buf id hcap,
+   fun username password candUse controlling priority tie candidateId compat hu hc =>
+     (iceConncheckCreate_good H hH ag buf id username password candUse controlling priority tie candidateId compat
+       hsw hcap hu hc).1⟩
+
+/-- reply construction: `stun_usage_ice_conncheck_create_reply` returns a status for every validated
+    request and every output buffer size (0..1300 in the property; proved for 0..65535), source
+    address, role, tie-breaker and dialect; the `assert (0)` behind `failure:` is unreachable -/
+theorem C05_no_fault_create_reply (H : Hashes) (hH : ∀ k t, (H.hmac k t).size = 20) (ag : Agent) (req old : Msg)
+    (buf : Bytes) (src : SockAddr) (srclen : Nat) (control : Bool) (tie : UInt64) (compat : Nat)
+    (hsw : SoftwareOk ag) (hcap : buf.size ≤ 65535) (hreq : Valid req.agent req.buf) :
+    ∃ r, iceCreateReply H ag req old buf src srclen control tie compat = .ok r :=
+  iceCreateReply_no_fault H hH ag req old buf src srclen control tie compat hsw hcap hreq
 
 /-! ### non-vacuity -/
 
